@@ -37,6 +37,8 @@ type C13Case struct {
 	BreakKind int          `json:"break_kind,omitempty"`
 	// DupGlobals: the same globals are added to the bundle twice
 	DupGlobals bool `json:"dup_globals,omitempty"`
+	// CaseTwins: two further files define templates whose names differ in case only
+	CaseTwins bool `json:"case_twins,omitempty"`
 	// SplitGlobals: the globals are given as two maps, the same two at every compilation of the case
 	SplitGlobals bool `json:"split_globals,omitempty"`
 	// JSFail > 0: file (JSFail-1) gets a template that compiles but has no JavaScript translation
@@ -168,6 +170,17 @@ func artefact2(c C13Case, order []int) (art string, imports int, suffixed bool, 
 		}
 		on = append(on, d1, d2)
 		os_ = append(os_, "{namespace zz.dup}\n/** */\n{template .same}"+d1+"{/template}\n", "{namespace zz.dup}\n/** */\n{template .same}"+d2+"{/template}\n")
+	}
+	if c.CaseTwins {
+		// two more files of one namespace, with templates whose names differ in case only (two templates,
+		// not one defined twice); their place follows the permutation of the others
+		d1, d2 := "zzcase1.soy", "zzcase2.soy"
+		s1, s2 := "{namespace zz.cases}\n/** */\n{template .Item}upper{msg desc=\"d\"}Item{/msg}{/template}\n", "{namespace zz.cases}\n/** */\n{template .item}lower{msg desc=\"d\"}item{/msg}{/template}\n"
+		if len(order) > 1 && order[0] > order[1] {
+			d1, d2, s1, s2 = d2, d1, s2, s1
+		}
+		on = append(on, d1, d2)
+		os_ = append(os_, s1, s2)
 	}
 	var b strings.Builder
 	if c.DupGlobals {
@@ -533,6 +546,7 @@ func genC13(t *rapid.T) C13Case {
 	}
 	c.DupGlobals = rapid.IntRange(0, 19).Draw(t, "dupGlobals") == 0
 	c.SplitGlobals = rapid.IntRange(0, 3).Draw(t, "splitGlobals") == 2
+	c.CaseTwins = rapid.IntRange(0, 4).Draw(t, "caseTwins") == 3
 	if rapid.IntRange(0, 5).Draw(t, "jsFail") == 0 {
 		c.JSFail = 1 + rapid.IntRange(0, len(pc.Prog.Files)-1).Draw(t, "jsFailFile")
 	}
